@@ -163,7 +163,9 @@ def calc_intensity(detector, scatterer, medium_index=None, illum_wavelen=None,
     field = calc_field(detector, scatterer, medium_index=medium_index,
                        illum_wavelen=illum_wavelen,
                        illum_polarization=illum_polarization, theory=theory)
-    intensity = (np.abs(field.sel(vector=['x', 'y']))**2).sum(dim=vector)
+    # (skipna=False: a field that could not be computed is not an intensity of 0)
+    intensity = (np.abs(field.sel(vector=['x', 'y']))**2).sum(
+        dim=vector, skipna=False)
     return finalize(field, intensity)
 
 
@@ -340,7 +342,9 @@ def scattered_field_to_hologram(scat, ref):
         The reference field
     """
     total_field = scat + ref
-    holo = (np.abs(total_field.sel(vector=['x', 'y']))**2).sum(dim=vector)
+    # (skipna=False: NaN + NaN is NaN, not a dark pixel)
+    holo = (np.abs(total_field.sel(vector=['x', 'y']))**2).sum(
+        dim=vector, skipna=False)
     return holo
 
 
